@@ -110,6 +110,18 @@ func corpus() []core.Case {
 			core.Case{Tag: "large", Lines: []string{fmt.Sprintf("@ C01 ring %d 0 0 T u1 u2 u3 u4 T o o o o o", cp), "step 0", "step 0", "step 0", "step 0", "step 0", "step 1", "step 1", "step 0", "drain", "final"}},
 			core.Case{Tag: "large", Lines: []string{fmt.Sprintf("@ C01 ring %d 4294967294 3 T u7 o T o u8 T l f e", cp), "step 0", "step 1", "step 2", "step 1", "step 0", "drain", "final"}})
 	}
+	// the waiting forms with a positive duration under the scheduler (sched/time shim):
+	// the deadline (`expire <tid>`) is reached while the waiter is between two attempts and
+	// the other party acts before the attempt of the deadline tick — that attempt succeeds
+	// and its result must be returned; then the same with nobody acting (plain timeout)
+	cases = append(cases,
+		core.Case{Tag: "timed", Lines: []string{"@ C01 ring 2 0 0 T O T u7", "step 0", "step 0", "expire 0", "step 1", "step 1", "step 1", "step 1", "step 0", "step 0", "step 0", "step 0", "drain", "final"}},
+		core.Case{Tag: "timed", Lines: []string{"@ C01 ring 2 4294967295 2 T U9 T o", "step 0", "step 0", "expire 0", "step 1", "step 1", "step 1", "step 1", "step 0", "step 0", "step 0", "step 0", "drain", "final"}},
+		core.Case{Tag: "timed", Lines: []string{"@ C01 ring 2 0 0 T O l T u7", "step 0", "step 0", "step 0", "step 0", "expire 0", "step 0", "step 0", "step 0", "step 1", "drain", "final"}},
+		core.Case{Tag: "timed", Lines: []string{"@ C01 ring 2 0 2 T U9 f T o", "step 0", "step 0", "step 0", "expire 0", "step 0", "step 0", "step 0", "drain", "final"}},
+		// the waiter is parked INSIDE the attempt of the deadline tick when the other party acts
+		core.Case{Tag: "timed", Lines: []string{"@ C01 ring 2 0 0 T O T u7 T l", "step 0", "step 0", "step 0", "expire 0", "step 1", "step 1", "step 2", "step 1", "step 1", "step 0", "step 0", "step 0", "step 0", "step 0", "drain", "final"}},
+	)
 	if wantF12() {
 		cases = append(cases, f12Witness)
 	}
@@ -167,7 +179,11 @@ func gen(r *core.Rand, tier string) core.Case {
 		var prog []string
 		n := r.Range(1, maxOps)
 		for k := 0; k < n; k++ {
-			switch r.Pick(42, 40, 8, 5, 5) {
+			switch r.Pick(38, 36, 8, 5, 5, 4, 4) {
+			case 5:
+				prog = append(prog, fmt.Sprintf("U%d", 100*(t+1)+k))
+			case 6:
+				prog = append(prog, "O")
 			case 0:
 				prog = append(prog, fmt.Sprintf("u%d", 100*(t+1)+k))
 			case 1:
@@ -185,6 +201,27 @@ func gen(r *core.Rand, tier string) core.Case {
 	}
 	mode := r.Pick(30, 35, 35)
 	lines := drive.Sample(factory(h), r, mode, 8*total+10)
+	// every thread with a waiting form gets its deadline somewhere before the drain
+	for t, prog := range h.progs {
+		timed := false
+		for _, c := range prog {
+			if c == "O" || strings.HasPrefix(c, "U") {
+				timed = true
+			}
+		}
+		if !timed {
+			continue
+		}
+		end := len(lines)
+		for k, l := range lines {
+			if l == "drain" || l == "final" {
+				end = k
+				break
+			}
+		}
+		at := r.Intn(end + 1)
+		lines = append(lines[:at], append([]string{fmt.Sprintf("expire %d", t)}, lines[at:]...)...)
+	}
 	tag := []string{"random-walk", "sticky-walk", "pct"}[mode]
 	return core.Case{Tag: tag, Lines: append([]string{h.String()}, lines...)}
 }
